@@ -36,6 +36,15 @@ pub fn u1() -> Vec<Ty> {
         }
     }
     s.insert(Ty::Struct(Default::default()));
+    // structs whose field-name sets are nested, overlapping and disjoint
+    for x in core3() {
+        s.insert(Ty::strukt(&[("b", x.clone())]));
+        for y in [Ty::Int, Ty::Str] {
+            s.insert(Ty::strukt(&[("a", x.clone()), ("c", y.clone())]));
+            s.insert(Ty::strukt(&[("b", x.clone()), ("c", y.clone())]));
+            s.insert(Ty::strukt(&[("a", x.clone()), ("b", Ty::Int), ("c", y.clone())]));
+        }
+    }
     // cells and iterators over unions (meet / join of cell types, iterator element folds)
     s.insert(Ty::mutc(Ty::union([Ty::Int, Ty::Float])));
     s.insert(Ty::mutc(Ty::union([Ty::Int, Ty::Bool])));
@@ -79,6 +88,8 @@ pub fn d1_core() -> Vec<Ty> {
         Ty::strukt(&[("a", f.clone())]),
         Ty::strukt(&[("a", i.clone()), ("b", i.clone())]),
         Ty::strukt(&[("a", i.clone()), ("b", f.clone())]),
+        Ty::strukt(&[("a", i.clone()), ("c", Ty::Str)]),
+        Ty::strukt(&[("b", i.clone())]),
         Ty::Str,
         i,
         f,
@@ -128,7 +139,39 @@ pub fn u2(thorough: bool) -> Vec<Ty> {
         s.insert(Ty::union([Ty::func(vec![], x.clone()), Ty::Int]));
         s.insert(Ty::union([Ty::mutc(x.clone()), Ty::Str]));
     }
+    s.extend(fold_sensitive());
     s.into_iter().collect()
+}
+
+/// Unions over which the folds of the type API (element, result, component, field, cell
+/// content) combine three members A, B, C with A below B and C unrelated to both: a fold
+/// that absorbs covered members gives {B, C} or {A, B, C} depending on the order it meets them in.
+pub fn fold_sensitive() -> Vec<Ty> {
+    let i = Ty::Int;
+    let u = Ty::union([Ty::Int, Ty::Float]);
+    let triples: Vec<[Ty; 3]> = vec![
+        [Ty::arr(i.clone()), Ty::arr(u.clone()), i.clone()],
+        [Ty::arr(i.clone()), Ty::arr(Ty::Any), Ty::mutc(i.clone())],
+        [Ty::strukt(&[("a", i.clone()), ("b", i.clone())]), Ty::strukt(&[("a", i.clone())]), Ty::Str],
+        [Ty::func(vec![], i.clone()), Ty::func(vec![], u.clone()), Ty::Str],
+        [Ty::Tup(vec![i.clone(), i.clone()]), Ty::Tup(vec![i.clone(), u.clone()]), Ty::Void],
+    ];
+    let wrappers: Vec<Box<dyn Fn(Ty) -> Ty>> = vec![
+        Box::new(Ty::mutc),
+        Box::new(Ty::arr),
+        Box::new(|t| Ty::func(vec![], t)),
+        Box::new(|t| Ty::func(vec![], Ty::Tup(vec![Ty::Bool, t]))),
+        Box::new(|t| Ty::Tup(vec![t, Ty::Int])),
+        Box::new(|t| Ty::strukt(&[("a", t)])),
+    ];
+    let mut out = Vec::new();
+    for [a, b, c] in &triples {
+        out.push(Ty::union([a.clone(), b.clone(), c.clone()]));
+        for w in &wrappers {
+            out.push(Ty::union([w(a.clone()), w(b.clone()), w(c.clone())]));
+        }
+    }
+    out
 }
 
 /// the parenthesisation-critical spine of C15: union inside function result inside union
